@@ -1,70 +1,777 @@
 import QrlModel.Proofs.Seg.H16Seg0
+import QrlModel.Proofs.Seg.H16Seg1
+import QrlModel.Proofs.Seg.H16Seg2
+import QrlModel.Proofs.Seg.H16Seg3
 import QrlModel.Proofs.Seg.H16Seg4
+import QrlModel.Proofs.Seg.H16Seg5
+import QrlModel.Proofs.Seg.H16Seg6
+import QrlModel.Proofs.Seg.H16Seg7
 import QrlModel.Proofs.Seg.H16Seg8
+import QrlModel.Proofs.Seg.H16Seg9
+import QrlModel.Proofs.Seg.H16Seg10
+import QrlModel.Proofs.Seg.H16Seg11
 import QrlModel.Proofs.Seg.H16Seg12
+import QrlModel.Proofs.Seg.H16Seg13
+import QrlModel.Proofs.Seg.H16Seg14
+import QrlModel.Proofs.Seg.H16Seg15
 import QrlModel.Proofs.Seg.H16Seg16
+import QrlModel.Proofs.Seg.H16Seg17
+import QrlModel.Proofs.Seg.H16Seg18
+import QrlModel.Proofs.Seg.H16Seg19
 import QrlModel.Proofs.Seg.H16Seg20
+import QrlModel.Proofs.Seg.H16Seg21
+import QrlModel.Proofs.Seg.H16Seg22
+import QrlModel.Proofs.Seg.H16Seg23
 import QrlModel.Proofs.Seg.H16Seg24
+import QrlModel.Proofs.Seg.H16Seg25
+import QrlModel.Proofs.Seg.H16Seg26
+import QrlModel.Proofs.Seg.H16Seg27
 import QrlModel.Proofs.Seg.H16Seg28
+import QrlModel.Proofs.Seg.H16Seg29
+import QrlModel.Proofs.Seg.H16Seg30
+import QrlModel.Proofs.Seg.H16Seg31
 import QrlModel.Proofs.Seg.H16Seg32
+import QrlModel.Proofs.Seg.H16Seg33
+import QrlModel.Proofs.Seg.H16Seg34
+import QrlModel.Proofs.Seg.H16Seg35
 import QrlModel.Proofs.Seg.H16Seg36
+import QrlModel.Proofs.Seg.H16Seg37
+import QrlModel.Proofs.Seg.H16Seg38
+import QrlModel.Proofs.Seg.H16Seg39
 import QrlModel.Proofs.Seg.H16Seg40
+import QrlModel.Proofs.Seg.H16Seg41
+import QrlModel.Proofs.Seg.H16Seg42
+import QrlModel.Proofs.Seg.H16Seg43
 import QrlModel.Proofs.Seg.H16Seg44
+import QrlModel.Proofs.Seg.H16Seg45
+import QrlModel.Proofs.Seg.H16Seg46
+import QrlModel.Proofs.Seg.H16Seg47
 import QrlModel.Proofs.Seg.H16Seg48
+import QrlModel.Proofs.Seg.H16Seg49
+import QrlModel.Proofs.Seg.H16Seg50
+import QrlModel.Proofs.Seg.H16Seg51
 import QrlModel.Proofs.Seg.H16Seg52
+import QrlModel.Proofs.Seg.H16Seg53
+import QrlModel.Proofs.Seg.H16Seg54
+import QrlModel.Proofs.Seg.H16Seg55
 import QrlModel.Proofs.Seg.H16Seg56
+import QrlModel.Proofs.Seg.H16Seg57
+import QrlModel.Proofs.Seg.H16Seg58
+import QrlModel.Proofs.Seg.H16Seg59
 import QrlModel.Proofs.Seg.H16Seg60
+import QrlModel.Proofs.Seg.H16Seg61
+import QrlModel.Proofs.Seg.H16Seg62
+import QrlModel.Proofs.Seg.H16Seg63
 import QrlModel.Proofs.Seg.H16Seg64
+import QrlModel.Proofs.Seg.H16Seg65
+import QrlModel.Proofs.Seg.H16Seg66
+import QrlModel.Proofs.Seg.H16Seg67
 import QrlModel.Proofs.Seg.H16Seg68
+import QrlModel.Proofs.Seg.H16Seg69
+import QrlModel.Proofs.Seg.H16Seg70
+import QrlModel.Proofs.Seg.H16Seg71
 import QrlModel.Proofs.Seg.H16Seg72
+import QrlModel.Proofs.Seg.H16Seg73
+import QrlModel.Proofs.Seg.H16Seg74
+import QrlModel.Proofs.Seg.H16Seg75
 import QrlModel.Proofs.Seg.H16Seg76
+import QrlModel.Proofs.Seg.H16Seg77
+import QrlModel.Proofs.Seg.H16Seg78
+import QrlModel.Proofs.Seg.H16Seg79
 import QrlModel.Proofs.Seg.H16Seg80
+import QrlModel.Proofs.Seg.H16Seg81
+import QrlModel.Proofs.Seg.H16Seg82
+import QrlModel.Proofs.Seg.H16Seg83
 import QrlModel.Proofs.Seg.H16Seg84
+import QrlModel.Proofs.Seg.H16Seg85
+import QrlModel.Proofs.Seg.H16Seg86
+import QrlModel.Proofs.Seg.H16Seg87
 import QrlModel.Proofs.Seg.H16Seg88
+import QrlModel.Proofs.Seg.H16Seg89
+import QrlModel.Proofs.Seg.H16Seg90
+import QrlModel.Proofs.Seg.H16Seg91
 import QrlModel.Proofs.Seg.H16Seg92
+import QrlModel.Proofs.Seg.H16Seg93
+import QrlModel.Proofs.Seg.H16Seg94
+import QrlModel.Proofs.Seg.H16Seg95
 import QrlModel.Proofs.Seg.H16Seg96
+import QrlModel.Proofs.Seg.H16Seg97
+import QrlModel.Proofs.Seg.H16Seg98
+import QrlModel.Proofs.Seg.H16Seg99
 import QrlModel.Proofs.Seg.H16Seg100
+import QrlModel.Proofs.Seg.H16Seg101
+import QrlModel.Proofs.Seg.H16Seg102
+import QrlModel.Proofs.Seg.H16Seg103
 import QrlModel.Proofs.Seg.H16Seg104
+import QrlModel.Proofs.Seg.H16Seg105
+import QrlModel.Proofs.Seg.H16Seg106
+import QrlModel.Proofs.Seg.H16Seg107
 import QrlModel.Proofs.Seg.H16Seg108
+import QrlModel.Proofs.Seg.H16Seg109
+import QrlModel.Proofs.Seg.H16Seg110
+import QrlModel.Proofs.Seg.H16Seg111
 import QrlModel.Proofs.Seg.H16Seg112
+import QrlModel.Proofs.Seg.H16Seg113
+import QrlModel.Proofs.Seg.H16Seg114
+import QrlModel.Proofs.Seg.H16Seg115
 import QrlModel.Proofs.Seg.H16Seg116
+import QrlModel.Proofs.Seg.H16Seg117
+import QrlModel.Proofs.Seg.H16Seg118
+import QrlModel.Proofs.Seg.H16Seg119
 import QrlModel.Proofs.Seg.H16Seg120
+import QrlModel.Proofs.Seg.H16Seg121
+import QrlModel.Proofs.Seg.H16Seg122
+import QrlModel.Proofs.Seg.H16Seg123
 import QrlModel.Proofs.Seg.H16Seg124
+import QrlModel.Proofs.Seg.H16Seg125
+import QrlModel.Proofs.Seg.H16Seg126
+import QrlModel.Proofs.Seg.H16Seg127
 import QrlModel.Proofs.Seg.H16Seg128
+import QrlModel.Proofs.Seg.H16Seg129
+import QrlModel.Proofs.Seg.H16Seg130
+import QrlModel.Proofs.Seg.H16Seg131
 import QrlModel.Proofs.Seg.H16Seg132
+import QrlModel.Proofs.Seg.H16Seg133
+import QrlModel.Proofs.Seg.H16Seg134
+import QrlModel.Proofs.Seg.H16Seg135
 import QrlModel.Proofs.Seg.H16Seg136
+import QrlModel.Proofs.Seg.H16Seg137
+import QrlModel.Proofs.Seg.H16Seg138
+import QrlModel.Proofs.Seg.H16Seg139
 import QrlModel.Proofs.Seg.H16Seg140
+import QrlModel.Proofs.Seg.H16Seg141
+import QrlModel.Proofs.Seg.H16Seg142
+import QrlModel.Proofs.Seg.H16Seg143
 import QrlModel.Proofs.Seg.H16Seg144
+import QrlModel.Proofs.Seg.H16Seg145
+import QrlModel.Proofs.Seg.H16Seg146
+import QrlModel.Proofs.Seg.H16Seg147
 import QrlModel.Proofs.Seg.H16Seg148
+import QrlModel.Proofs.Seg.H16Seg149
+import QrlModel.Proofs.Seg.H16Seg150
+import QrlModel.Proofs.Seg.H16Seg151
 import QrlModel.Proofs.Seg.H16Seg152
+import QrlModel.Proofs.Seg.H16Seg153
+import QrlModel.Proofs.Seg.H16Seg154
+import QrlModel.Proofs.Seg.H16Seg155
 import QrlModel.Proofs.Seg.H16Seg156
+import QrlModel.Proofs.Seg.H16Seg157
+import QrlModel.Proofs.Seg.H16Seg158
+import QrlModel.Proofs.Seg.H16Seg159
 import QrlModel.Proofs.Seg.H16Seg160
+import QrlModel.Proofs.Seg.H16Seg161
+import QrlModel.Proofs.Seg.H16Seg162
+import QrlModel.Proofs.Seg.H16Seg163
 import QrlModel.Proofs.Seg.H16Seg164
+import QrlModel.Proofs.Seg.H16Seg165
+import QrlModel.Proofs.Seg.H16Seg166
+import QrlModel.Proofs.Seg.H16Seg167
 import QrlModel.Proofs.Seg.H16Seg168
+import QrlModel.Proofs.Seg.H16Seg169
+import QrlModel.Proofs.Seg.H16Seg170
+import QrlModel.Proofs.Seg.H16Seg171
 import QrlModel.Proofs.Seg.H16Seg172
+import QrlModel.Proofs.Seg.H16Seg173
+import QrlModel.Proofs.Seg.H16Seg174
+import QrlModel.Proofs.Seg.H16Seg175
 import QrlModel.Proofs.Seg.H16Seg176
+import QrlModel.Proofs.Seg.H16Seg177
+import QrlModel.Proofs.Seg.H16Seg178
+import QrlModel.Proofs.Seg.H16Seg179
 import QrlModel.Proofs.Seg.H16Seg180
+import QrlModel.Proofs.Seg.H16Seg181
+import QrlModel.Proofs.Seg.H16Seg182
+import QrlModel.Proofs.Seg.H16Seg183
 import QrlModel.Proofs.Seg.H16Seg184
+import QrlModel.Proofs.Seg.H16Seg185
+import QrlModel.Proofs.Seg.H16Seg186
+import QrlModel.Proofs.Seg.H16Seg187
 import QrlModel.Proofs.Seg.H16Seg188
+import QrlModel.Proofs.Seg.H16Seg189
+import QrlModel.Proofs.Seg.H16Seg190
+import QrlModel.Proofs.Seg.H16Seg191
 import QrlModel.Proofs.Seg.H16Seg192
+import QrlModel.Proofs.Seg.H16Seg193
+import QrlModel.Proofs.Seg.H16Seg194
+import QrlModel.Proofs.Seg.H16Seg195
 import QrlModel.Proofs.Seg.H16Seg196
+import QrlModel.Proofs.Seg.H16Seg197
+import QrlModel.Proofs.Seg.H16Seg198
+import QrlModel.Proofs.Seg.H16Seg199
 import QrlModel.Proofs.Seg.H16Seg200
+import QrlModel.Proofs.Seg.H16Seg201
+import QrlModel.Proofs.Seg.H16Seg202
+import QrlModel.Proofs.Seg.H16Seg203
 import QrlModel.Proofs.Seg.H16Seg204
+import QrlModel.Proofs.Seg.H16Seg205
+import QrlModel.Proofs.Seg.H16Seg206
+import QrlModel.Proofs.Seg.H16Seg207
 import QrlModel.Proofs.Seg.H16Seg208
+import QrlModel.Proofs.Seg.H16Seg209
+import QrlModel.Proofs.Seg.H16Seg210
+import QrlModel.Proofs.Seg.H16Seg211
 import QrlModel.Proofs.Seg.H16Seg212
+import QrlModel.Proofs.Seg.H16Seg213
+import QrlModel.Proofs.Seg.H16Seg214
+import QrlModel.Proofs.Seg.H16Seg215
 import QrlModel.Proofs.Seg.H16Seg216
+import QrlModel.Proofs.Seg.H16Seg217
+import QrlModel.Proofs.Seg.H16Seg218
+import QrlModel.Proofs.Seg.H16Seg219
 import QrlModel.Proofs.Seg.H16Seg220
+import QrlModel.Proofs.Seg.H16Seg221
+import QrlModel.Proofs.Seg.H16Seg222
+import QrlModel.Proofs.Seg.H16Seg223
 import QrlModel.Proofs.Seg.H16Seg224
+import QrlModel.Proofs.Seg.H16Seg225
+import QrlModel.Proofs.Seg.H16Seg226
+import QrlModel.Proofs.Seg.H16Seg227
 import QrlModel.Proofs.Seg.H16Seg228
+import QrlModel.Proofs.Seg.H16Seg229
+import QrlModel.Proofs.Seg.H16Seg230
+import QrlModel.Proofs.Seg.H16Seg231
 import QrlModel.Proofs.Seg.H16Seg232
+import QrlModel.Proofs.Seg.H16Seg233
+import QrlModel.Proofs.Seg.H16Seg234
+import QrlModel.Proofs.Seg.H16Seg235
 import QrlModel.Proofs.Seg.H16Seg236
+import QrlModel.Proofs.Seg.H16Seg237
+import QrlModel.Proofs.Seg.H16Seg238
+import QrlModel.Proofs.Seg.H16Seg239
 import QrlModel.Proofs.Seg.H16Seg240
+import QrlModel.Proofs.Seg.H16Seg241
+import QrlModel.Proofs.Seg.H16Seg242
+import QrlModel.Proofs.Seg.H16Seg243
 import QrlModel.Proofs.Seg.H16Seg244
+import QrlModel.Proofs.Seg.H16Seg245
+import QrlModel.Proofs.Seg.H16Seg246
+import QrlModel.Proofs.Seg.H16Seg247
 import QrlModel.Proofs.Seg.H16Seg248
+import QrlModel.Proofs.Seg.H16Seg249
+import QrlModel.Proofs.Seg.H16Seg250
+import QrlModel.Proofs.Seg.H16Seg251
 import QrlModel.Proofs.Seg.H16Seg252
+import QrlModel.Proofs.Seg.H16Seg253
+import QrlModel.Proofs.Seg.H16Seg254
+import QrlModel.Proofs.Seg.H16Seg255
 import QrlModel.Proofs.Seg.H16Seg256
+import QrlModel.Proofs.Seg.H16Seg257
+import QrlModel.Proofs.Seg.H16Seg258
+import QrlModel.Proofs.Seg.H16Seg259
+import QrlModel.Proofs.Seg.H16Seg260
+import QrlModel.Proofs.Seg.H16Seg261
+import QrlModel.Proofs.Seg.H16Seg262
+import QrlModel.Proofs.Seg.H16Seg263
+import QrlModel.Proofs.Seg.H16Seg264
+import QrlModel.Proofs.Seg.H16Seg265
+import QrlModel.Proofs.Seg.H16Seg266
+import QrlModel.Proofs.Seg.H16Seg267
+import QrlModel.Proofs.Seg.H16Seg268
+import QrlModel.Proofs.Seg.H16Seg269
+import QrlModel.Proofs.Seg.H16Seg270
+import QrlModel.Proofs.Seg.H16Seg271
+import QrlModel.Proofs.Seg.H16Seg272
+import QrlModel.Proofs.Seg.H16Seg273
+import QrlModel.Proofs.Seg.H16Seg274
+import QrlModel.Proofs.Seg.H16Seg275
+import QrlModel.Proofs.Seg.H16Seg276
+import QrlModel.Proofs.Seg.H16Seg277
+import QrlModel.Proofs.Seg.H16Seg278
+import QrlModel.Proofs.Seg.H16Seg279
+import QrlModel.Proofs.Seg.H16Seg280
+import QrlModel.Proofs.Seg.H16Seg281
+import QrlModel.Proofs.Seg.H16Seg282
+import QrlModel.Proofs.Seg.H16Seg283
+import QrlModel.Proofs.Seg.H16Seg284
+import QrlModel.Proofs.Seg.H16Seg285
+import QrlModel.Proofs.Seg.H16Seg286
+import QrlModel.Proofs.Seg.H16Seg287
+import QrlModel.Proofs.Seg.H16Seg288
+import QrlModel.Proofs.Seg.H16Seg289
+import QrlModel.Proofs.Seg.H16Seg290
+import QrlModel.Proofs.Seg.H16Seg291
+import QrlModel.Proofs.Seg.H16Seg292
+import QrlModel.Proofs.Seg.H16Seg293
+import QrlModel.Proofs.Seg.H16Seg294
+import QrlModel.Proofs.Seg.H16Seg295
+import QrlModel.Proofs.Seg.H16Seg296
+import QrlModel.Proofs.Seg.H16Seg297
+import QrlModel.Proofs.Seg.H16Seg298
+import QrlModel.Proofs.Seg.H16Seg299
+import QrlModel.Proofs.Seg.H16Seg300
+import QrlModel.Proofs.Seg.H16Seg301
+import QrlModel.Proofs.Seg.H16Seg302
+import QrlModel.Proofs.Seg.H16Seg303
+import QrlModel.Proofs.Seg.H16Seg304
+import QrlModel.Proofs.Seg.H16Seg305
+import QrlModel.Proofs.Seg.H16Seg306
+import QrlModel.Proofs.Seg.H16Seg307
+import QrlModel.Proofs.Seg.H16Seg308
+import QrlModel.Proofs.Seg.H16Seg309
+import QrlModel.Proofs.Seg.H16Seg310
+import QrlModel.Proofs.Seg.H16Seg311
+import QrlModel.Proofs.Seg.H16Seg312
+import QrlModel.Proofs.Seg.H16Seg313
+import QrlModel.Proofs.Seg.H16Seg314
+import QrlModel.Proofs.Seg.H16Seg315
+import QrlModel.Proofs.Seg.H16Seg316
+import QrlModel.Proofs.Seg.H16Seg317
+import QrlModel.Proofs.Seg.H16Seg318
+import QrlModel.Proofs.Seg.H16Seg319
+import QrlModel.Proofs.Seg.H16Seg320
+import QrlModel.Proofs.Seg.H16Seg321
+import QrlModel.Proofs.Seg.H16Seg322
+import QrlModel.Proofs.Seg.H16Seg323
+import QrlModel.Proofs.Seg.H16Seg324
+import QrlModel.Proofs.Seg.H16Seg325
+import QrlModel.Proofs.Seg.H16Seg326
+import QrlModel.Proofs.Seg.H16Seg327
+import QrlModel.Proofs.Seg.H16Seg328
+import QrlModel.Proofs.Seg.H16Seg329
+import QrlModel.Proofs.Seg.H16Seg330
+import QrlModel.Proofs.Seg.H16Seg331
+import QrlModel.Proofs.Seg.H16Seg332
+import QrlModel.Proofs.Seg.H16Seg333
+import QrlModel.Proofs.Seg.H16Seg334
+import QrlModel.Proofs.Seg.H16Seg335
+import QrlModel.Proofs.Seg.H16Seg336
+import QrlModel.Proofs.Seg.H16Seg337
+import QrlModel.Proofs.Seg.H16Seg338
+import QrlModel.Proofs.Seg.H16Seg339
+import QrlModel.Proofs.Seg.H16Seg340
+import QrlModel.Proofs.Seg.H16Seg341
+import QrlModel.Proofs.Seg.H16Seg342
+import QrlModel.Proofs.Seg.H16Seg343
+import QrlModel.Proofs.Seg.H16Seg344
+import QrlModel.Proofs.Seg.H16Seg345
+import QrlModel.Proofs.Seg.H16Seg346
+import QrlModel.Proofs.Seg.H16Seg347
+import QrlModel.Proofs.Seg.H16Seg348
+import QrlModel.Proofs.Seg.H16Seg349
+import QrlModel.Proofs.Seg.H16Seg350
+import QrlModel.Proofs.Seg.H16Seg351
+import QrlModel.Proofs.Seg.H16Seg352
+import QrlModel.Proofs.Seg.H16Seg353
+import QrlModel.Proofs.Seg.H16Seg354
+import QrlModel.Proofs.Seg.H16Seg355
+import QrlModel.Proofs.Seg.H16Seg356
+import QrlModel.Proofs.Seg.H16Seg357
+import QrlModel.Proofs.Seg.H16Seg358
+import QrlModel.Proofs.Seg.H16Seg359
+import QrlModel.Proofs.Seg.H16Seg360
+import QrlModel.Proofs.Seg.H16Seg361
+import QrlModel.Proofs.Seg.H16Seg362
+import QrlModel.Proofs.Seg.H16Seg363
+import QrlModel.Proofs.Seg.H16Seg364
+import QrlModel.Proofs.Seg.H16Seg365
+import QrlModel.Proofs.Seg.H16Seg366
+import QrlModel.Proofs.Seg.H16Seg367
+import QrlModel.Proofs.Seg.H16Seg368
+import QrlModel.Proofs.Seg.H16Seg369
+import QrlModel.Proofs.Seg.H16Seg370
+import QrlModel.Proofs.Seg.H16Seg371
+import QrlModel.Proofs.Seg.H16Seg372
+import QrlModel.Proofs.Seg.H16Seg373
+import QrlModel.Proofs.Seg.H16Seg374
+import QrlModel.Proofs.Seg.H16Seg375
+import QrlModel.Proofs.Seg.H16Seg376
+import QrlModel.Proofs.Seg.H16Seg377
+import QrlModel.Proofs.Seg.H16Seg378
+import QrlModel.Proofs.Seg.H16Seg379
+import QrlModel.Proofs.Seg.H16Seg380
+import QrlModel.Proofs.Seg.H16Seg381
+import QrlModel.Proofs.Seg.H16Seg382
+import QrlModel.Proofs.Seg.H16Seg383
+import QrlModel.Proofs.Seg.H16Seg384
+import QrlModel.Proofs.Seg.H16Seg385
+import QrlModel.Proofs.Seg.H16Seg386
+import QrlModel.Proofs.Seg.H16Seg387
+import QrlModel.Proofs.Seg.H16Seg388
+import QrlModel.Proofs.Seg.H16Seg389
+import QrlModel.Proofs.Seg.H16Seg390
+import QrlModel.Proofs.Seg.H16Seg391
+import QrlModel.Proofs.Seg.H16Seg392
+import QrlModel.Proofs.Seg.H16Seg393
+import QrlModel.Proofs.Seg.H16Seg394
+import QrlModel.Proofs.Seg.H16Seg395
+import QrlModel.Proofs.Seg.H16Seg396
+import QrlModel.Proofs.Seg.H16Seg397
+import QrlModel.Proofs.Seg.H16Seg398
+import QrlModel.Proofs.Seg.H16Seg399
+import QrlModel.Proofs.Seg.H16Seg400
+import QrlModel.Proofs.Seg.H16Seg401
+import QrlModel.Proofs.Seg.H16Seg402
+import QrlModel.Proofs.Seg.H16Seg403
+import QrlModel.Proofs.Seg.H16Seg404
+import QrlModel.Proofs.Seg.H16Seg405
+import QrlModel.Proofs.Seg.H16Seg406
+import QrlModel.Proofs.Seg.H16Seg407
+import QrlModel.Proofs.Seg.H16Seg408
+import QrlModel.Proofs.Seg.H16Seg409
+import QrlModel.Proofs.Seg.H16Seg410
+import QrlModel.Proofs.Seg.H16Seg411
+import QrlModel.Proofs.Seg.H16Seg412
+import QrlModel.Proofs.Seg.H16Seg413
+import QrlModel.Proofs.Seg.H16Seg414
+import QrlModel.Proofs.Seg.H16Seg415
+import QrlModel.Proofs.Seg.H16Seg416
+import QrlModel.Proofs.Seg.H16Seg417
+import QrlModel.Proofs.Seg.H16Seg418
+import QrlModel.Proofs.Seg.H16Seg419
+import QrlModel.Proofs.Seg.H16Seg420
+import QrlModel.Proofs.Seg.H16Seg421
+import QrlModel.Proofs.Seg.H16Seg422
+import QrlModel.Proofs.Seg.H16Seg423
+import QrlModel.Proofs.Seg.H16Seg424
+import QrlModel.Proofs.Seg.H16Seg425
+import QrlModel.Proofs.Seg.H16Seg426
+import QrlModel.Proofs.Seg.H16Seg427
+import QrlModel.Proofs.Seg.H16Seg428
+import QrlModel.Proofs.Seg.H16Seg429
+import QrlModel.Proofs.Seg.H16Seg430
+import QrlModel.Proofs.Seg.H16Seg431
+import QrlModel.Proofs.Seg.H16Seg432
+import QrlModel.Proofs.Seg.H16Seg433
+import QrlModel.Proofs.Seg.H16Seg434
+import QrlModel.Proofs.Seg.H16Seg435
+import QrlModel.Proofs.Seg.H16Seg436
+import QrlModel.Proofs.Seg.H16Seg437
+import QrlModel.Proofs.Seg.H16Seg438
+import QrlModel.Proofs.Seg.H16Seg439
+import QrlModel.Proofs.Seg.H16Seg440
+import QrlModel.Proofs.Seg.H16Seg441
+import QrlModel.Proofs.Seg.H16Seg442
+import QrlModel.Proofs.Seg.H16Seg443
+import QrlModel.Proofs.Seg.H16Seg444
+import QrlModel.Proofs.Seg.H16Seg445
+import QrlModel.Proofs.Seg.H16Seg446
+import QrlModel.Proofs.Seg.H16Seg447
+import QrlModel.Proofs.Seg.H16Seg448
+import QrlModel.Proofs.Seg.H16Seg449
+import QrlModel.Proofs.Seg.H16Seg450
+import QrlModel.Proofs.Seg.H16Seg451
+import QrlModel.Proofs.Seg.H16Seg452
+import QrlModel.Proofs.Seg.H16Seg453
+import QrlModel.Proofs.Seg.H16Seg454
+import QrlModel.Proofs.Seg.H16Seg455
+import QrlModel.Proofs.Seg.H16Seg456
+import QrlModel.Proofs.Seg.H16Seg457
+import QrlModel.Proofs.Seg.H16Seg458
+import QrlModel.Proofs.Seg.H16Seg459
+import QrlModel.Proofs.Seg.H16Seg460
+import QrlModel.Proofs.Seg.H16Seg461
+import QrlModel.Proofs.Seg.H16Seg462
+import QrlModel.Proofs.Seg.H16Seg463
+import QrlModel.Proofs.Seg.H16Seg464
+import QrlModel.Proofs.Seg.H16Seg465
+import QrlModel.Proofs.Seg.H16Seg466
+import QrlModel.Proofs.Seg.H16Seg467
+import QrlModel.Proofs.Seg.H16Seg468
+import QrlModel.Proofs.Seg.H16Seg469
+import QrlModel.Proofs.Seg.H16Seg470
+import QrlModel.Proofs.Seg.H16Seg471
+import QrlModel.Proofs.Seg.H16Seg472
+import QrlModel.Proofs.Seg.H16Seg473
+import QrlModel.Proofs.Seg.H16Seg474
+import QrlModel.Proofs.Seg.H16Seg475
+import QrlModel.Proofs.Seg.H16Seg476
+import QrlModel.Proofs.Seg.H16Seg477
+import QrlModel.Proofs.Seg.H16Seg478
+import QrlModel.Proofs.Seg.H16Seg479
+import QrlModel.Proofs.Seg.H16Seg480
+import QrlModel.Proofs.Seg.H16Seg481
+import QrlModel.Proofs.Seg.H16Seg482
+import QrlModel.Proofs.Seg.H16Seg483
+import QrlModel.Proofs.Seg.H16Seg484
+import QrlModel.Proofs.Seg.H16Seg485
+import QrlModel.Proofs.Seg.H16Seg486
+import QrlModel.Proofs.Seg.H16Seg487
+import QrlModel.Proofs.Seg.H16Seg488
+import QrlModel.Proofs.Seg.H16Seg489
+import QrlModel.Proofs.Seg.H16Seg490
+import QrlModel.Proofs.Seg.H16Seg491
+import QrlModel.Proofs.Seg.H16Seg492
+import QrlModel.Proofs.Seg.H16Seg493
+import QrlModel.Proofs.Seg.H16Seg494
+import QrlModel.Proofs.Seg.H16Seg495
+import QrlModel.Proofs.Seg.H16Seg496
+import QrlModel.Proofs.Seg.H16Seg497
+import QrlModel.Proofs.Seg.H16Seg498
+import QrlModel.Proofs.Seg.H16Seg499
+import QrlModel.Proofs.Seg.H16Seg500
+import QrlModel.Proofs.Seg.H16Seg501
+import QrlModel.Proofs.Seg.H16Seg502
+import QrlModel.Proofs.Seg.H16Seg503
+import QrlModel.Proofs.Seg.H16Seg504
+import QrlModel.Proofs.Seg.H16Seg505
+import QrlModel.Proofs.Seg.H16Seg506
+import QrlModel.Proofs.Seg.H16Seg507
+import QrlModel.Proofs.Seg.H16Seg508
+import QrlModel.Proofs.Seg.H16Seg509
+import QrlModel.Proofs.Seg.H16Seg510
+import QrlModel.Proofs.Seg.H16Seg511
+import QrlModel.Proofs.Seg.H16Seg512
+import QrlModel.Proofs.Seg.H16Seg513
+import QrlModel.Proofs.Seg.H16Seg514
+import QrlModel.Proofs.Seg.H16Seg515
+import QrlModel.Proofs.Seg.H16Seg516
+import QrlModel.Proofs.Seg.H16Seg517
+import QrlModel.Proofs.Seg.H16Seg518
+import QrlModel.Proofs.Seg.H16Seg519
+import QrlModel.Proofs.Seg.H16Seg520
+import QrlModel.Proofs.Seg.H16Seg521
+import QrlModel.Proofs.Seg.H16Seg522
+import QrlModel.Proofs.Seg.H16Seg523
+import QrlModel.Proofs.Seg.H16Seg524
+import QrlModel.Proofs.Seg.H16Seg525
+import QrlModel.Proofs.Seg.H16Seg526
+import QrlModel.Proofs.Seg.H16Seg527
+import QrlModel.Proofs.Seg.H16Seg528
+import QrlModel.Proofs.Seg.H16Seg529
+import QrlModel.Proofs.Seg.H16Seg530
+import QrlModel.Proofs.Seg.H16Seg531
+import QrlModel.Proofs.Seg.H16Seg532
+import QrlModel.Proofs.Seg.H16Seg533
+import QrlModel.Proofs.Seg.H16Seg534
+import QrlModel.Proofs.Seg.H16Seg535
+import QrlModel.Proofs.Seg.H16Seg536
+import QrlModel.Proofs.Seg.H16Seg537
+import QrlModel.Proofs.Seg.H16Seg538
+import QrlModel.Proofs.Seg.H16Seg539
+import QrlModel.Proofs.Seg.H16Seg540
+import QrlModel.Proofs.Seg.H16Seg541
+import QrlModel.Proofs.Seg.H16Seg542
+import QrlModel.Proofs.Seg.H16Seg543
+import QrlModel.Proofs.Seg.H16Seg544
+import QrlModel.Proofs.Seg.H16Seg545
+import QrlModel.Proofs.Seg.H16Seg546
+import QrlModel.Proofs.Seg.H16Seg547
+import QrlModel.Proofs.Seg.H16Seg548
+import QrlModel.Proofs.Seg.H16Seg549
+import QrlModel.Proofs.Seg.H16Seg550
+import QrlModel.Proofs.Seg.H16Seg551
+import QrlModel.Proofs.Seg.H16Seg552
+import QrlModel.Proofs.Seg.H16Seg553
+import QrlModel.Proofs.Seg.H16Seg554
+import QrlModel.Proofs.Seg.H16Seg555
+import QrlModel.Proofs.Seg.H16Seg556
+import QrlModel.Proofs.Seg.H16Seg557
+import QrlModel.Proofs.Seg.H16Seg558
+import QrlModel.Proofs.Seg.H16Seg559
+import QrlModel.Proofs.Seg.H16Seg560
+import QrlModel.Proofs.Seg.H16Seg561
+import QrlModel.Proofs.Seg.H16Seg562
+import QrlModel.Proofs.Seg.H16Seg563
+import QrlModel.Proofs.Seg.H16Seg564
+import QrlModel.Proofs.Seg.H16Seg565
+import QrlModel.Proofs.Seg.H16Seg566
+import QrlModel.Proofs.Seg.H16Seg567
+import QrlModel.Proofs.Seg.H16Seg568
+import QrlModel.Proofs.Seg.H16Seg569
+import QrlModel.Proofs.Seg.H16Seg570
+import QrlModel.Proofs.Seg.H16Seg571
+import QrlModel.Proofs.Seg.H16Seg572
+import QrlModel.Proofs.Seg.H16Seg573
+import QrlModel.Proofs.Seg.H16Seg574
+import QrlModel.Proofs.Seg.H16Seg575
+import QrlModel.Proofs.Seg.H16Seg576
+import QrlModel.Proofs.Seg.H16Seg577
+import QrlModel.Proofs.Seg.H16Seg578
+import QrlModel.Proofs.Seg.H16Seg579
+import QrlModel.Proofs.Seg.H16Seg580
+import QrlModel.Proofs.Seg.H16Seg581
+import QrlModel.Proofs.Seg.H16Seg582
+import QrlModel.Proofs.Seg.H16Seg583
+import QrlModel.Proofs.Seg.H16Seg584
+import QrlModel.Proofs.Seg.H16Seg585
+import QrlModel.Proofs.Seg.H16Seg586
+import QrlModel.Proofs.Seg.H16Seg587
+import QrlModel.Proofs.Seg.H16Seg588
+import QrlModel.Proofs.Seg.H16Seg589
+import QrlModel.Proofs.Seg.H16Seg590
+import QrlModel.Proofs.Seg.H16Seg591
+import QrlModel.Proofs.Seg.H16Seg592
+import QrlModel.Proofs.Seg.H16Seg593
+import QrlModel.Proofs.Seg.H16Seg594
+import QrlModel.Proofs.Seg.H16Seg595
+import QrlModel.Proofs.Seg.H16Seg596
+import QrlModel.Proofs.Seg.H16Seg597
+import QrlModel.Proofs.Seg.H16Seg598
+import QrlModel.Proofs.Seg.H16Seg599
+import QrlModel.Proofs.Seg.H16Seg600
+import QrlModel.Proofs.Seg.H16Seg601
+import QrlModel.Proofs.Seg.H16Seg602
+import QrlModel.Proofs.Seg.H16Seg603
+import QrlModel.Proofs.Seg.H16Seg604
+import QrlModel.Proofs.Seg.H16Seg605
+import QrlModel.Proofs.Seg.H16Seg606
+import QrlModel.Proofs.Seg.H16Seg607
+import QrlModel.Proofs.Seg.H16Seg608
+import QrlModel.Proofs.Seg.H16Seg609
+import QrlModel.Proofs.Seg.H16Seg610
+import QrlModel.Proofs.Seg.H16Seg611
+import QrlModel.Proofs.Seg.H16Seg612
+import QrlModel.Proofs.Seg.H16Seg613
+import QrlModel.Proofs.Seg.H16Seg614
+import QrlModel.Proofs.Seg.H16Seg615
+import QrlModel.Proofs.Seg.H16Seg616
+import QrlModel.Proofs.Seg.H16Seg617
+import QrlModel.Proofs.Seg.H16Seg618
+import QrlModel.Proofs.Seg.H16Seg619
+import QrlModel.Proofs.Seg.H16Seg620
+import QrlModel.Proofs.Seg.H16Seg621
+import QrlModel.Proofs.Seg.H16Seg622
+import QrlModel.Proofs.Seg.H16Seg623
+import QrlModel.Proofs.Seg.H16Seg624
+import QrlModel.Proofs.Seg.H16Seg625
+import QrlModel.Proofs.Seg.H16Seg626
+import QrlModel.Proofs.Seg.H16Seg627
+import QrlModel.Proofs.Seg.H16Seg628
+import QrlModel.Proofs.Seg.H16Seg629
+import QrlModel.Proofs.Seg.H16Seg630
+import QrlModel.Proofs.Seg.H16Seg631
+import QrlModel.Proofs.Seg.H16Seg632
+import QrlModel.Proofs.Seg.H16Seg633
+import QrlModel.Proofs.Seg.H16Seg634
+import QrlModel.Proofs.Seg.H16Seg635
+import QrlModel.Proofs.Seg.H16Seg636
+import QrlModel.Proofs.Seg.H16Seg637
+import QrlModel.Proofs.Seg.H16Seg638
+import QrlModel.Proofs.Seg.H16Seg639
+import QrlModel.Proofs.Seg.H16Seg640
+import QrlModel.Proofs.Seg.H16Seg641
+import QrlModel.Proofs.Seg.H16Seg642
+import QrlModel.Proofs.Seg.H16Seg643
+import QrlModel.Proofs.Seg.H16Seg644
+import QrlModel.Proofs.Seg.H16Seg645
+import QrlModel.Proofs.Seg.H16Seg646
+import QrlModel.Proofs.Seg.H16Seg647
+import QrlModel.Proofs.Seg.H16Seg648
+import QrlModel.Proofs.Seg.H16Seg649
+import QrlModel.Proofs.Seg.H16Seg650
+import QrlModel.Proofs.Seg.H16Seg651
+import QrlModel.Proofs.Seg.H16Seg652
+import QrlModel.Proofs.Seg.H16Seg653
+import QrlModel.Proofs.Seg.H16Seg654
+import QrlModel.Proofs.Seg.H16Seg655
+import QrlModel.Proofs.Seg.H16Seg656
+import QrlModel.Proofs.Seg.H16Seg657
+import QrlModel.Proofs.Seg.H16Seg658
+import QrlModel.Proofs.Seg.H16Seg659
+import QrlModel.Proofs.Seg.H16Seg660
+import QrlModel.Proofs.Seg.H16Seg661
+import QrlModel.Proofs.Seg.H16Seg662
+import QrlModel.Proofs.Seg.H16Seg663
+import QrlModel.Proofs.Seg.H16Seg664
+import QrlModel.Proofs.Seg.H16Seg665
+import QrlModel.Proofs.Seg.H16Seg666
+import QrlModel.Proofs.Seg.H16Seg667
+import QrlModel.Proofs.Seg.H16Seg668
+import QrlModel.Proofs.Seg.H16Seg669
+import QrlModel.Proofs.Seg.H16Seg670
+import QrlModel.Proofs.Seg.H16Seg671
+import QrlModel.Proofs.Seg.H16Seg672
+import QrlModel.Proofs.Seg.H16Seg673
+import QrlModel.Proofs.Seg.H16Seg674
+import QrlModel.Proofs.Seg.H16Seg675
+import QrlModel.Proofs.Seg.H16Seg676
+import QrlModel.Proofs.Seg.H16Seg677
+import QrlModel.Proofs.Seg.H16Seg678
+import QrlModel.Proofs.Seg.H16Seg679
+import QrlModel.Proofs.Seg.H16Seg680
+import QrlModel.Proofs.Seg.H16Seg681
+import QrlModel.Proofs.Seg.H16Seg682
+import QrlModel.Proofs.Seg.H16Seg683
+import QrlModel.Proofs.Seg.H16Seg684
+import QrlModel.Proofs.Seg.H16Seg685
+import QrlModel.Proofs.Seg.H16Seg686
+import QrlModel.Proofs.Seg.H16Seg687
+import QrlModel.Proofs.Seg.H16Seg688
+import QrlModel.Proofs.Seg.H16Seg689
+import QrlModel.Proofs.Seg.H16Seg690
+import QrlModel.Proofs.Seg.H16Seg691
+import QrlModel.Proofs.Seg.H16Seg692
+import QrlModel.Proofs.Seg.H16Seg693
+import QrlModel.Proofs.Seg.H16Seg694
+import QrlModel.Proofs.Seg.H16Seg695
+import QrlModel.Proofs.Seg.H16Seg696
+import QrlModel.Proofs.Seg.H16Seg697
+import QrlModel.Proofs.Seg.H16Seg698
+import QrlModel.Proofs.Seg.H16Seg699
+import QrlModel.Proofs.Seg.H16Seg700
+import QrlModel.Proofs.Seg.H16Seg701
+import QrlModel.Proofs.Seg.H16Seg702
+import QrlModel.Proofs.Seg.H16Seg703
+import QrlModel.Proofs.Seg.H16Seg704
+import QrlModel.Proofs.Seg.H16Seg705
+import QrlModel.Proofs.Seg.H16Seg706
+import QrlModel.Proofs.Seg.H16Seg707
+import QrlModel.Proofs.Seg.H16Seg708
+import QrlModel.Proofs.Seg.H16Seg709
+import QrlModel.Proofs.Seg.H16Seg710
+import QrlModel.Proofs.Seg.H16Seg711
+import QrlModel.Proofs.Seg.H16Seg712
+import QrlModel.Proofs.Seg.H16Seg713
+import QrlModel.Proofs.Seg.H16Seg714
+import QrlModel.Proofs.Seg.H16Seg715
+import QrlModel.Proofs.Seg.H16Seg716
+import QrlModel.Proofs.Seg.H16Seg717
+import QrlModel.Proofs.Seg.H16Seg718
+import QrlModel.Proofs.Seg.H16Seg719
+import QrlModel.Proofs.Seg.H16Seg720
+import QrlModel.Proofs.Seg.H16Seg721
+import QrlModel.Proofs.Seg.H16Seg722
+import QrlModel.Proofs.Seg.H16Seg723
+import QrlModel.Proofs.Seg.H16Seg724
+import QrlModel.Proofs.Seg.H16Seg725
+import QrlModel.Proofs.Seg.H16Seg726
+import QrlModel.Proofs.Seg.H16Seg727
+import QrlModel.Proofs.Seg.H16Seg728
+import QrlModel.Proofs.Seg.H16Seg729
+import QrlModel.Proofs.Seg.H16Seg730
+import QrlModel.Proofs.Seg.H16Seg731
+import QrlModel.Proofs.Seg.H16Seg732
+import QrlModel.Proofs.Seg.H16Seg733
+import QrlModel.Proofs.Seg.H16Seg734
+import QrlModel.Proofs.Seg.H16Seg735
+import QrlModel.Proofs.Seg.H16Seg736
+import QrlModel.Proofs.Seg.H16Seg737
+import QrlModel.Proofs.Seg.H16Seg738
+import QrlModel.Proofs.Seg.H16Seg739
+import QrlModel.Proofs.Seg.H16Seg740
+import QrlModel.Proofs.Seg.H16Seg741
+import QrlModel.Proofs.Seg.H16Seg742
+import QrlModel.Proofs.Seg.H16Seg743
+import QrlModel.Proofs.Seg.H16Seg744
+import QrlModel.Proofs.Seg.H16Seg745
+import QrlModel.Proofs.Seg.H16Seg746
+import QrlModel.Proofs.Seg.H16Seg747
+import QrlModel.Proofs.Seg.H16Seg748
+import QrlModel.Proofs.Seg.H16Seg749
+import QrlModel.Proofs.Seg.H16Seg750
+import QrlModel.Proofs.Seg.H16Seg751
+import QrlModel.Proofs.Seg.H16Seg752
+import QrlModel.Proofs.Seg.H16Seg753
+import QrlModel.Proofs.Seg.H16Seg754
+import QrlModel.Proofs.Seg.H16Seg755
+import QrlModel.Proofs.Seg.H16Seg756
+import QrlModel.Proofs.Seg.H16Seg757
+import QrlModel.Proofs.Seg.H16Seg758
+import QrlModel.Proofs.Seg.H16Seg759
+import QrlModel.Proofs.Seg.H16Seg760
+import QrlModel.Proofs.Seg.H16Seg761
+import QrlModel.Proofs.Seg.H16Seg762
+import QrlModel.Proofs.Seg.H16Seg763
+import QrlModel.Proofs.Seg.H16Seg764
+import QrlModel.Proofs.Seg.H16Seg765
+import QrlModel.Proofs.Seg.H16Seg766
+import QrlModel.Proofs.Seg.H16Seg767
+import QrlModel.Proofs.Seg.H16Seg768
+import QrlModel.Proofs.Seg.H16Seg769
+import QrlModel.Proofs.Seg.H16Seg770
+import QrlModel.Proofs.Seg.H16Seg771
 import QrlModel.Proofs.Seg.H16Setup
--- GENERATED by tools/mk_segcert.py 16 255 257 (committed; every equation below is re-checked by the kernel)
+-- GENERATED by tools/mk_segcert.py 16 85 771 (committed; every equation below is re-checked by the kernel)
 namespace Qrl.BdsLabel.Seg16
 open Qrl.Bds
 def S : Nat → St Lbl
@@ -326,9 +1033,523 @@ def S : Nat → St Lbl
   | 255 => S255
   | 256 => S256
   | 257 => S257
-  | _ => S257
+  | 258 => S258
+  | 259 => S259
+  | 260 => S260
+  | 261 => S261
+  | 262 => S262
+  | 263 => S263
+  | 264 => S264
+  | 265 => S265
+  | 266 => S266
+  | 267 => S267
+  | 268 => S268
+  | 269 => S269
+  | 270 => S270
+  | 271 => S271
+  | 272 => S272
+  | 273 => S273
+  | 274 => S274
+  | 275 => S275
+  | 276 => S276
+  | 277 => S277
+  | 278 => S278
+  | 279 => S279
+  | 280 => S280
+  | 281 => S281
+  | 282 => S282
+  | 283 => S283
+  | 284 => S284
+  | 285 => S285
+  | 286 => S286
+  | 287 => S287
+  | 288 => S288
+  | 289 => S289
+  | 290 => S290
+  | 291 => S291
+  | 292 => S292
+  | 293 => S293
+  | 294 => S294
+  | 295 => S295
+  | 296 => S296
+  | 297 => S297
+  | 298 => S298
+  | 299 => S299
+  | 300 => S300
+  | 301 => S301
+  | 302 => S302
+  | 303 => S303
+  | 304 => S304
+  | 305 => S305
+  | 306 => S306
+  | 307 => S307
+  | 308 => S308
+  | 309 => S309
+  | 310 => S310
+  | 311 => S311
+  | 312 => S312
+  | 313 => S313
+  | 314 => S314
+  | 315 => S315
+  | 316 => S316
+  | 317 => S317
+  | 318 => S318
+  | 319 => S319
+  | 320 => S320
+  | 321 => S321
+  | 322 => S322
+  | 323 => S323
+  | 324 => S324
+  | 325 => S325
+  | 326 => S326
+  | 327 => S327
+  | 328 => S328
+  | 329 => S329
+  | 330 => S330
+  | 331 => S331
+  | 332 => S332
+  | 333 => S333
+  | 334 => S334
+  | 335 => S335
+  | 336 => S336
+  | 337 => S337
+  | 338 => S338
+  | 339 => S339
+  | 340 => S340
+  | 341 => S341
+  | 342 => S342
+  | 343 => S343
+  | 344 => S344
+  | 345 => S345
+  | 346 => S346
+  | 347 => S347
+  | 348 => S348
+  | 349 => S349
+  | 350 => S350
+  | 351 => S351
+  | 352 => S352
+  | 353 => S353
+  | 354 => S354
+  | 355 => S355
+  | 356 => S356
+  | 357 => S357
+  | 358 => S358
+  | 359 => S359
+  | 360 => S360
+  | 361 => S361
+  | 362 => S362
+  | 363 => S363
+  | 364 => S364
+  | 365 => S365
+  | 366 => S366
+  | 367 => S367
+  | 368 => S368
+  | 369 => S369
+  | 370 => S370
+  | 371 => S371
+  | 372 => S372
+  | 373 => S373
+  | 374 => S374
+  | 375 => S375
+  | 376 => S376
+  | 377 => S377
+  | 378 => S378
+  | 379 => S379
+  | 380 => S380
+  | 381 => S381
+  | 382 => S382
+  | 383 => S383
+  | 384 => S384
+  | 385 => S385
+  | 386 => S386
+  | 387 => S387
+  | 388 => S388
+  | 389 => S389
+  | 390 => S390
+  | 391 => S391
+  | 392 => S392
+  | 393 => S393
+  | 394 => S394
+  | 395 => S395
+  | 396 => S396
+  | 397 => S397
+  | 398 => S398
+  | 399 => S399
+  | 400 => S400
+  | 401 => S401
+  | 402 => S402
+  | 403 => S403
+  | 404 => S404
+  | 405 => S405
+  | 406 => S406
+  | 407 => S407
+  | 408 => S408
+  | 409 => S409
+  | 410 => S410
+  | 411 => S411
+  | 412 => S412
+  | 413 => S413
+  | 414 => S414
+  | 415 => S415
+  | 416 => S416
+  | 417 => S417
+  | 418 => S418
+  | 419 => S419
+  | 420 => S420
+  | 421 => S421
+  | 422 => S422
+  | 423 => S423
+  | 424 => S424
+  | 425 => S425
+  | 426 => S426
+  | 427 => S427
+  | 428 => S428
+  | 429 => S429
+  | 430 => S430
+  | 431 => S431
+  | 432 => S432
+  | 433 => S433
+  | 434 => S434
+  | 435 => S435
+  | 436 => S436
+  | 437 => S437
+  | 438 => S438
+  | 439 => S439
+  | 440 => S440
+  | 441 => S441
+  | 442 => S442
+  | 443 => S443
+  | 444 => S444
+  | 445 => S445
+  | 446 => S446
+  | 447 => S447
+  | 448 => S448
+  | 449 => S449
+  | 450 => S450
+  | 451 => S451
+  | 452 => S452
+  | 453 => S453
+  | 454 => S454
+  | 455 => S455
+  | 456 => S456
+  | 457 => S457
+  | 458 => S458
+  | 459 => S459
+  | 460 => S460
+  | 461 => S461
+  | 462 => S462
+  | 463 => S463
+  | 464 => S464
+  | 465 => S465
+  | 466 => S466
+  | 467 => S467
+  | 468 => S468
+  | 469 => S469
+  | 470 => S470
+  | 471 => S471
+  | 472 => S472
+  | 473 => S473
+  | 474 => S474
+  | 475 => S475
+  | 476 => S476
+  | 477 => S477
+  | 478 => S478
+  | 479 => S479
+  | 480 => S480
+  | 481 => S481
+  | 482 => S482
+  | 483 => S483
+  | 484 => S484
+  | 485 => S485
+  | 486 => S486
+  | 487 => S487
+  | 488 => S488
+  | 489 => S489
+  | 490 => S490
+  | 491 => S491
+  | 492 => S492
+  | 493 => S493
+  | 494 => S494
+  | 495 => S495
+  | 496 => S496
+  | 497 => S497
+  | 498 => S498
+  | 499 => S499
+  | 500 => S500
+  | 501 => S501
+  | 502 => S502
+  | 503 => S503
+  | 504 => S504
+  | 505 => S505
+  | 506 => S506
+  | 507 => S507
+  | 508 => S508
+  | 509 => S509
+  | 510 => S510
+  | 511 => S511
+  | 512 => S512
+  | 513 => S513
+  | 514 => S514
+  | 515 => S515
+  | 516 => S516
+  | 517 => S517
+  | 518 => S518
+  | 519 => S519
+  | 520 => S520
+  | 521 => S521
+  | 522 => S522
+  | 523 => S523
+  | 524 => S524
+  | 525 => S525
+  | 526 => S526
+  | 527 => S527
+  | 528 => S528
+  | 529 => S529
+  | 530 => S530
+  | 531 => S531
+  | 532 => S532
+  | 533 => S533
+  | 534 => S534
+  | 535 => S535
+  | 536 => S536
+  | 537 => S537
+  | 538 => S538
+  | 539 => S539
+  | 540 => S540
+  | 541 => S541
+  | 542 => S542
+  | 543 => S543
+  | 544 => S544
+  | 545 => S545
+  | 546 => S546
+  | 547 => S547
+  | 548 => S548
+  | 549 => S549
+  | 550 => S550
+  | 551 => S551
+  | 552 => S552
+  | 553 => S553
+  | 554 => S554
+  | 555 => S555
+  | 556 => S556
+  | 557 => S557
+  | 558 => S558
+  | 559 => S559
+  | 560 => S560
+  | 561 => S561
+  | 562 => S562
+  | 563 => S563
+  | 564 => S564
+  | 565 => S565
+  | 566 => S566
+  | 567 => S567
+  | 568 => S568
+  | 569 => S569
+  | 570 => S570
+  | 571 => S571
+  | 572 => S572
+  | 573 => S573
+  | 574 => S574
+  | 575 => S575
+  | 576 => S576
+  | 577 => S577
+  | 578 => S578
+  | 579 => S579
+  | 580 => S580
+  | 581 => S581
+  | 582 => S582
+  | 583 => S583
+  | 584 => S584
+  | 585 => S585
+  | 586 => S586
+  | 587 => S587
+  | 588 => S588
+  | 589 => S589
+  | 590 => S590
+  | 591 => S591
+  | 592 => S592
+  | 593 => S593
+  | 594 => S594
+  | 595 => S595
+  | 596 => S596
+  | 597 => S597
+  | 598 => S598
+  | 599 => S599
+  | 600 => S600
+  | 601 => S601
+  | 602 => S602
+  | 603 => S603
+  | 604 => S604
+  | 605 => S605
+  | 606 => S606
+  | 607 => S607
+  | 608 => S608
+  | 609 => S609
+  | 610 => S610
+  | 611 => S611
+  | 612 => S612
+  | 613 => S613
+  | 614 => S614
+  | 615 => S615
+  | 616 => S616
+  | 617 => S617
+  | 618 => S618
+  | 619 => S619
+  | 620 => S620
+  | 621 => S621
+  | 622 => S622
+  | 623 => S623
+  | 624 => S624
+  | 625 => S625
+  | 626 => S626
+  | 627 => S627
+  | 628 => S628
+  | 629 => S629
+  | 630 => S630
+  | 631 => S631
+  | 632 => S632
+  | 633 => S633
+  | 634 => S634
+  | 635 => S635
+  | 636 => S636
+  | 637 => S637
+  | 638 => S638
+  | 639 => S639
+  | 640 => S640
+  | 641 => S641
+  | 642 => S642
+  | 643 => S643
+  | 644 => S644
+  | 645 => S645
+  | 646 => S646
+  | 647 => S647
+  | 648 => S648
+  | 649 => S649
+  | 650 => S650
+  | 651 => S651
+  | 652 => S652
+  | 653 => S653
+  | 654 => S654
+  | 655 => S655
+  | 656 => S656
+  | 657 => S657
+  | 658 => S658
+  | 659 => S659
+  | 660 => S660
+  | 661 => S661
+  | 662 => S662
+  | 663 => S663
+  | 664 => S664
+  | 665 => S665
+  | 666 => S666
+  | 667 => S667
+  | 668 => S668
+  | 669 => S669
+  | 670 => S670
+  | 671 => S671
+  | 672 => S672
+  | 673 => S673
+  | 674 => S674
+  | 675 => S675
+  | 676 => S676
+  | 677 => S677
+  | 678 => S678
+  | 679 => S679
+  | 680 => S680
+  | 681 => S681
+  | 682 => S682
+  | 683 => S683
+  | 684 => S684
+  | 685 => S685
+  | 686 => S686
+  | 687 => S687
+  | 688 => S688
+  | 689 => S689
+  | 690 => S690
+  | 691 => S691
+  | 692 => S692
+  | 693 => S693
+  | 694 => S694
+  | 695 => S695
+  | 696 => S696
+  | 697 => S697
+  | 698 => S698
+  | 699 => S699
+  | 700 => S700
+  | 701 => S701
+  | 702 => S702
+  | 703 => S703
+  | 704 => S704
+  | 705 => S705
+  | 706 => S706
+  | 707 => S707
+  | 708 => S708
+  | 709 => S709
+  | 710 => S710
+  | 711 => S711
+  | 712 => S712
+  | 713 => S713
+  | 714 => S714
+  | 715 => S715
+  | 716 => S716
+  | 717 => S717
+  | 718 => S718
+  | 719 => S719
+  | 720 => S720
+  | 721 => S721
+  | 722 => S722
+  | 723 => S723
+  | 724 => S724
+  | 725 => S725
+  | 726 => S726
+  | 727 => S727
+  | 728 => S728
+  | 729 => S729
+  | 730 => S730
+  | 731 => S731
+  | 732 => S732
+  | 733 => S733
+  | 734 => S734
+  | 735 => S735
+  | 736 => S736
+  | 737 => S737
+  | 738 => S738
+  | 739 => S739
+  | 740 => S740
+  | 741 => S741
+  | 742 => S742
+  | 743 => S743
+  | 744 => S744
+  | 745 => S745
+  | 746 => S746
+  | 747 => S747
+  | 748 => S748
+  | 749 => S749
+  | 750 => S750
+  | 751 => S751
+  | 752 => S752
+  | 753 => S753
+  | 754 => S754
+  | 755 => S755
+  | 756 => S756
+  | 757 => S757
+  | 758 => S758
+  | 759 => S759
+  | 760 => S760
+  | 761 => S761
+  | 762 => S762
+  | 763 => S763
+  | 764 => S764
+  | 765 => S765
+  | 766 => S766
+  | 767 => S767
+  | 768 => S768
+  | 769 => S769
+  | 770 => S770
+  | 771 => S771
+  | _ => S771
 
-theorem segs : ∀ c, c < 257 → runSeg 16 255 (255 * c) (S c) = (S (c+1), true)
+theorem segs : ∀ c, c < 771 → runSeg 16 85 (85 * c) (S c) = (S (c+1), true)
   | 0, _ => seg0
   | 1, _ => seg1
   | 2, _ => seg2
@@ -586,9 +1807,523 @@ theorem segs : ∀ c, c < 257 → runSeg 16 255 (255 * c) (S c) = (S (c+1), true
   | 254, _ => seg254
   | 255, _ => seg255
   | 256, _ => seg256
-  | c+257, hc => by omega
+  | 257, _ => seg257
+  | 258, _ => seg258
+  | 259, _ => seg259
+  | 260, _ => seg260
+  | 261, _ => seg261
+  | 262, _ => seg262
+  | 263, _ => seg263
+  | 264, _ => seg264
+  | 265, _ => seg265
+  | 266, _ => seg266
+  | 267, _ => seg267
+  | 268, _ => seg268
+  | 269, _ => seg269
+  | 270, _ => seg270
+  | 271, _ => seg271
+  | 272, _ => seg272
+  | 273, _ => seg273
+  | 274, _ => seg274
+  | 275, _ => seg275
+  | 276, _ => seg276
+  | 277, _ => seg277
+  | 278, _ => seg278
+  | 279, _ => seg279
+  | 280, _ => seg280
+  | 281, _ => seg281
+  | 282, _ => seg282
+  | 283, _ => seg283
+  | 284, _ => seg284
+  | 285, _ => seg285
+  | 286, _ => seg286
+  | 287, _ => seg287
+  | 288, _ => seg288
+  | 289, _ => seg289
+  | 290, _ => seg290
+  | 291, _ => seg291
+  | 292, _ => seg292
+  | 293, _ => seg293
+  | 294, _ => seg294
+  | 295, _ => seg295
+  | 296, _ => seg296
+  | 297, _ => seg297
+  | 298, _ => seg298
+  | 299, _ => seg299
+  | 300, _ => seg300
+  | 301, _ => seg301
+  | 302, _ => seg302
+  | 303, _ => seg303
+  | 304, _ => seg304
+  | 305, _ => seg305
+  | 306, _ => seg306
+  | 307, _ => seg307
+  | 308, _ => seg308
+  | 309, _ => seg309
+  | 310, _ => seg310
+  | 311, _ => seg311
+  | 312, _ => seg312
+  | 313, _ => seg313
+  | 314, _ => seg314
+  | 315, _ => seg315
+  | 316, _ => seg316
+  | 317, _ => seg317
+  | 318, _ => seg318
+  | 319, _ => seg319
+  | 320, _ => seg320
+  | 321, _ => seg321
+  | 322, _ => seg322
+  | 323, _ => seg323
+  | 324, _ => seg324
+  | 325, _ => seg325
+  | 326, _ => seg326
+  | 327, _ => seg327
+  | 328, _ => seg328
+  | 329, _ => seg329
+  | 330, _ => seg330
+  | 331, _ => seg331
+  | 332, _ => seg332
+  | 333, _ => seg333
+  | 334, _ => seg334
+  | 335, _ => seg335
+  | 336, _ => seg336
+  | 337, _ => seg337
+  | 338, _ => seg338
+  | 339, _ => seg339
+  | 340, _ => seg340
+  | 341, _ => seg341
+  | 342, _ => seg342
+  | 343, _ => seg343
+  | 344, _ => seg344
+  | 345, _ => seg345
+  | 346, _ => seg346
+  | 347, _ => seg347
+  | 348, _ => seg348
+  | 349, _ => seg349
+  | 350, _ => seg350
+  | 351, _ => seg351
+  | 352, _ => seg352
+  | 353, _ => seg353
+  | 354, _ => seg354
+  | 355, _ => seg355
+  | 356, _ => seg356
+  | 357, _ => seg357
+  | 358, _ => seg358
+  | 359, _ => seg359
+  | 360, _ => seg360
+  | 361, _ => seg361
+  | 362, _ => seg362
+  | 363, _ => seg363
+  | 364, _ => seg364
+  | 365, _ => seg365
+  | 366, _ => seg366
+  | 367, _ => seg367
+  | 368, _ => seg368
+  | 369, _ => seg369
+  | 370, _ => seg370
+  | 371, _ => seg371
+  | 372, _ => seg372
+  | 373, _ => seg373
+  | 374, _ => seg374
+  | 375, _ => seg375
+  | 376, _ => seg376
+  | 377, _ => seg377
+  | 378, _ => seg378
+  | 379, _ => seg379
+  | 380, _ => seg380
+  | 381, _ => seg381
+  | 382, _ => seg382
+  | 383, _ => seg383
+  | 384, _ => seg384
+  | 385, _ => seg385
+  | 386, _ => seg386
+  | 387, _ => seg387
+  | 388, _ => seg388
+  | 389, _ => seg389
+  | 390, _ => seg390
+  | 391, _ => seg391
+  | 392, _ => seg392
+  | 393, _ => seg393
+  | 394, _ => seg394
+  | 395, _ => seg395
+  | 396, _ => seg396
+  | 397, _ => seg397
+  | 398, _ => seg398
+  | 399, _ => seg399
+  | 400, _ => seg400
+  | 401, _ => seg401
+  | 402, _ => seg402
+  | 403, _ => seg403
+  | 404, _ => seg404
+  | 405, _ => seg405
+  | 406, _ => seg406
+  | 407, _ => seg407
+  | 408, _ => seg408
+  | 409, _ => seg409
+  | 410, _ => seg410
+  | 411, _ => seg411
+  | 412, _ => seg412
+  | 413, _ => seg413
+  | 414, _ => seg414
+  | 415, _ => seg415
+  | 416, _ => seg416
+  | 417, _ => seg417
+  | 418, _ => seg418
+  | 419, _ => seg419
+  | 420, _ => seg420
+  | 421, _ => seg421
+  | 422, _ => seg422
+  | 423, _ => seg423
+  | 424, _ => seg424
+  | 425, _ => seg425
+  | 426, _ => seg426
+  | 427, _ => seg427
+  | 428, _ => seg428
+  | 429, _ => seg429
+  | 430, _ => seg430
+  | 431, _ => seg431
+  | 432, _ => seg432
+  | 433, _ => seg433
+  | 434, _ => seg434
+  | 435, _ => seg435
+  | 436, _ => seg436
+  | 437, _ => seg437
+  | 438, _ => seg438
+  | 439, _ => seg439
+  | 440, _ => seg440
+  | 441, _ => seg441
+  | 442, _ => seg442
+  | 443, _ => seg443
+  | 444, _ => seg444
+  | 445, _ => seg445
+  | 446, _ => seg446
+  | 447, _ => seg447
+  | 448, _ => seg448
+  | 449, _ => seg449
+  | 450, _ => seg450
+  | 451, _ => seg451
+  | 452, _ => seg452
+  | 453, _ => seg453
+  | 454, _ => seg454
+  | 455, _ => seg455
+  | 456, _ => seg456
+  | 457, _ => seg457
+  | 458, _ => seg458
+  | 459, _ => seg459
+  | 460, _ => seg460
+  | 461, _ => seg461
+  | 462, _ => seg462
+  | 463, _ => seg463
+  | 464, _ => seg464
+  | 465, _ => seg465
+  | 466, _ => seg466
+  | 467, _ => seg467
+  | 468, _ => seg468
+  | 469, _ => seg469
+  | 470, _ => seg470
+  | 471, _ => seg471
+  | 472, _ => seg472
+  | 473, _ => seg473
+  | 474, _ => seg474
+  | 475, _ => seg475
+  | 476, _ => seg476
+  | 477, _ => seg477
+  | 478, _ => seg478
+  | 479, _ => seg479
+  | 480, _ => seg480
+  | 481, _ => seg481
+  | 482, _ => seg482
+  | 483, _ => seg483
+  | 484, _ => seg484
+  | 485, _ => seg485
+  | 486, _ => seg486
+  | 487, _ => seg487
+  | 488, _ => seg488
+  | 489, _ => seg489
+  | 490, _ => seg490
+  | 491, _ => seg491
+  | 492, _ => seg492
+  | 493, _ => seg493
+  | 494, _ => seg494
+  | 495, _ => seg495
+  | 496, _ => seg496
+  | 497, _ => seg497
+  | 498, _ => seg498
+  | 499, _ => seg499
+  | 500, _ => seg500
+  | 501, _ => seg501
+  | 502, _ => seg502
+  | 503, _ => seg503
+  | 504, _ => seg504
+  | 505, _ => seg505
+  | 506, _ => seg506
+  | 507, _ => seg507
+  | 508, _ => seg508
+  | 509, _ => seg509
+  | 510, _ => seg510
+  | 511, _ => seg511
+  | 512, _ => seg512
+  | 513, _ => seg513
+  | 514, _ => seg514
+  | 515, _ => seg515
+  | 516, _ => seg516
+  | 517, _ => seg517
+  | 518, _ => seg518
+  | 519, _ => seg519
+  | 520, _ => seg520
+  | 521, _ => seg521
+  | 522, _ => seg522
+  | 523, _ => seg523
+  | 524, _ => seg524
+  | 525, _ => seg525
+  | 526, _ => seg526
+  | 527, _ => seg527
+  | 528, _ => seg528
+  | 529, _ => seg529
+  | 530, _ => seg530
+  | 531, _ => seg531
+  | 532, _ => seg532
+  | 533, _ => seg533
+  | 534, _ => seg534
+  | 535, _ => seg535
+  | 536, _ => seg536
+  | 537, _ => seg537
+  | 538, _ => seg538
+  | 539, _ => seg539
+  | 540, _ => seg540
+  | 541, _ => seg541
+  | 542, _ => seg542
+  | 543, _ => seg543
+  | 544, _ => seg544
+  | 545, _ => seg545
+  | 546, _ => seg546
+  | 547, _ => seg547
+  | 548, _ => seg548
+  | 549, _ => seg549
+  | 550, _ => seg550
+  | 551, _ => seg551
+  | 552, _ => seg552
+  | 553, _ => seg553
+  | 554, _ => seg554
+  | 555, _ => seg555
+  | 556, _ => seg556
+  | 557, _ => seg557
+  | 558, _ => seg558
+  | 559, _ => seg559
+  | 560, _ => seg560
+  | 561, _ => seg561
+  | 562, _ => seg562
+  | 563, _ => seg563
+  | 564, _ => seg564
+  | 565, _ => seg565
+  | 566, _ => seg566
+  | 567, _ => seg567
+  | 568, _ => seg568
+  | 569, _ => seg569
+  | 570, _ => seg570
+  | 571, _ => seg571
+  | 572, _ => seg572
+  | 573, _ => seg573
+  | 574, _ => seg574
+  | 575, _ => seg575
+  | 576, _ => seg576
+  | 577, _ => seg577
+  | 578, _ => seg578
+  | 579, _ => seg579
+  | 580, _ => seg580
+  | 581, _ => seg581
+  | 582, _ => seg582
+  | 583, _ => seg583
+  | 584, _ => seg584
+  | 585, _ => seg585
+  | 586, _ => seg586
+  | 587, _ => seg587
+  | 588, _ => seg588
+  | 589, _ => seg589
+  | 590, _ => seg590
+  | 591, _ => seg591
+  | 592, _ => seg592
+  | 593, _ => seg593
+  | 594, _ => seg594
+  | 595, _ => seg595
+  | 596, _ => seg596
+  | 597, _ => seg597
+  | 598, _ => seg598
+  | 599, _ => seg599
+  | 600, _ => seg600
+  | 601, _ => seg601
+  | 602, _ => seg602
+  | 603, _ => seg603
+  | 604, _ => seg604
+  | 605, _ => seg605
+  | 606, _ => seg606
+  | 607, _ => seg607
+  | 608, _ => seg608
+  | 609, _ => seg609
+  | 610, _ => seg610
+  | 611, _ => seg611
+  | 612, _ => seg612
+  | 613, _ => seg613
+  | 614, _ => seg614
+  | 615, _ => seg615
+  | 616, _ => seg616
+  | 617, _ => seg617
+  | 618, _ => seg618
+  | 619, _ => seg619
+  | 620, _ => seg620
+  | 621, _ => seg621
+  | 622, _ => seg622
+  | 623, _ => seg623
+  | 624, _ => seg624
+  | 625, _ => seg625
+  | 626, _ => seg626
+  | 627, _ => seg627
+  | 628, _ => seg628
+  | 629, _ => seg629
+  | 630, _ => seg630
+  | 631, _ => seg631
+  | 632, _ => seg632
+  | 633, _ => seg633
+  | 634, _ => seg634
+  | 635, _ => seg635
+  | 636, _ => seg636
+  | 637, _ => seg637
+  | 638, _ => seg638
+  | 639, _ => seg639
+  | 640, _ => seg640
+  | 641, _ => seg641
+  | 642, _ => seg642
+  | 643, _ => seg643
+  | 644, _ => seg644
+  | 645, _ => seg645
+  | 646, _ => seg646
+  | 647, _ => seg647
+  | 648, _ => seg648
+  | 649, _ => seg649
+  | 650, _ => seg650
+  | 651, _ => seg651
+  | 652, _ => seg652
+  | 653, _ => seg653
+  | 654, _ => seg654
+  | 655, _ => seg655
+  | 656, _ => seg656
+  | 657, _ => seg657
+  | 658, _ => seg658
+  | 659, _ => seg659
+  | 660, _ => seg660
+  | 661, _ => seg661
+  | 662, _ => seg662
+  | 663, _ => seg663
+  | 664, _ => seg664
+  | 665, _ => seg665
+  | 666, _ => seg666
+  | 667, _ => seg667
+  | 668, _ => seg668
+  | 669, _ => seg669
+  | 670, _ => seg670
+  | 671, _ => seg671
+  | 672, _ => seg672
+  | 673, _ => seg673
+  | 674, _ => seg674
+  | 675, _ => seg675
+  | 676, _ => seg676
+  | 677, _ => seg677
+  | 678, _ => seg678
+  | 679, _ => seg679
+  | 680, _ => seg680
+  | 681, _ => seg681
+  | 682, _ => seg682
+  | 683, _ => seg683
+  | 684, _ => seg684
+  | 685, _ => seg685
+  | 686, _ => seg686
+  | 687, _ => seg687
+  | 688, _ => seg688
+  | 689, _ => seg689
+  | 690, _ => seg690
+  | 691, _ => seg691
+  | 692, _ => seg692
+  | 693, _ => seg693
+  | 694, _ => seg694
+  | 695, _ => seg695
+  | 696, _ => seg696
+  | 697, _ => seg697
+  | 698, _ => seg698
+  | 699, _ => seg699
+  | 700, _ => seg700
+  | 701, _ => seg701
+  | 702, _ => seg702
+  | 703, _ => seg703
+  | 704, _ => seg704
+  | 705, _ => seg705
+  | 706, _ => seg706
+  | 707, _ => seg707
+  | 708, _ => seg708
+  | 709, _ => seg709
+  | 710, _ => seg710
+  | 711, _ => seg711
+  | 712, _ => seg712
+  | 713, _ => seg713
+  | 714, _ => seg714
+  | 715, _ => seg715
+  | 716, _ => seg716
+  | 717, _ => seg717
+  | 718, _ => seg718
+  | 719, _ => seg719
+  | 720, _ => seg720
+  | 721, _ => seg721
+  | 722, _ => seg722
+  | 723, _ => seg723
+  | 724, _ => seg724
+  | 725, _ => seg725
+  | 726, _ => seg726
+  | 727, _ => seg727
+  | 728, _ => seg728
+  | 729, _ => seg729
+  | 730, _ => seg730
+  | 731, _ => seg731
+  | 732, _ => seg732
+  | 733, _ => seg733
+  | 734, _ => seg734
+  | 735, _ => seg735
+  | 736, _ => seg736
+  | 737, _ => seg737
+  | 738, _ => seg738
+  | 739, _ => seg739
+  | 740, _ => seg740
+  | 741, _ => seg741
+  | 742, _ => seg742
+  | 743, _ => seg743
+  | 744, _ => seg744
+  | 745, _ => seg745
+  | 746, _ => seg746
+  | 747, _ => seg747
+  | 748, _ => seg748
+  | 749, _ => seg749
+  | 750, _ => seg750
+  | 751, _ => seg751
+  | 752, _ => seg752
+  | 753, _ => seg753
+  | 754, _ => seg754
+  | 755, _ => seg755
+  | 756, _ => seg756
+  | 757, _ => seg757
+  | 758, _ => seg758
+  | 759, _ => seg759
+  | 760, _ => seg760
+  | 761, _ => seg761
+  | 762, _ => seg762
+  | 763, _ => seg763
+  | 764, _ => seg764
+  | 765, _ => seg765
+  | 766, _ => seg766
+  | 767, _ => seg767
+  | 768, _ => seg768
+  | 769, _ => seg769
+  | 770, _ => seg770
+  | c+771, hc => by omega
 
 /-- the traversal of height 16 keeps the true authentication path at all 65536 indices -/
 theorem traversal : TraversalCorrect 16 :=
-  traversal_of_segments 16 255 257 S (by decide) setup segs last
+  traversal_of_segments 16 85 771 S (by decide) setup segs last
 end Qrl.BdsLabel.Seg16
